@@ -257,7 +257,8 @@ H_TEXTS = [
     "ok = 1\n##### Part 1\nfine = 2\n",
 ]
 H_OPS = [('set', 0, True), ('set', 1, True), ('set', 2, False), ('set', 3, True), ('set', 0, False),
-         ('next',), ('verify',)]
+         ('next',), ('verify',), ('other-report',)]
+OTHER_TEXT = "if True:\n    k = 1\n  m = 2\n"     # IndentationError on line 3
 _MARK_RE = re.compile(r'^##### Part .+$', re.M)
 
 
@@ -290,6 +291,18 @@ def make_histories(max_ops):
                     ctx.fail({'symptom': 'set_source raised', 'exception': type(e).__name__}, history=hist, message=str(e)[:200])
                     return
                 model = (H_TEXTS[op[1]], op[2], 0)
+            elif op[0] == 'other-report':
+                # a second, unrelated submission is verified on a Report of its own (what an environment does for the
+                # next student) while this report may be in the middle of its sections: neither may shift the other
+                from pedal.core.report import Report
+                from pedal.core.submission import Submission
+                hist.append(op)
+                ctx.step(op)
+                other = Report()
+                other.contextualize(Submission(main_code=OTHER_TEXT, main_file='answer.py'))
+                judge(ctx, OTHER_TEXT, 0, 'other report', do_verify=lambda: verify(report=other), report=other)
+                if ctx.fails:
+                    ctx.fails[-1][1]['history'] = list(hist)
             elif op[0] == 'next':
                 if model is None or not model[1] or model[2] + 1 >= len(_chunks(model[0])):
                     ctx.outcome('op-not-enabled')
